@@ -10,7 +10,12 @@ import z3
 
 from . import ops as O
 
-Z3_TIMEOUT_MS = {'quick': 20000, 'thorough': 120000, 'refute': 5000}   # refute: looking for `sat` only (small-scope refutation)
+# Budgets are z3 resource units (`rlimit`: deterministic, independent of machine load - a verdict must not flip when
+# all cores are busy); the wall-clock timeouts are a safety net only.  Slow queries are seed-sensitive: several
+# modest attempts with different seeds beat one long one.  refute = looking for `sat` only (small-scope refutation).
+Z3_TIMEOUT_MS = {'quick': 150000, 'thorough': 600000, 'refute': 15000}
+Z3_RLIMIT = {'quick': 50000000, 'thorough': 300000000, 'refute': 10000000}
+Z3_ATTEMPTS = {'quick': 4, 'thorough': 3, 'refute': 1}
 
 
 _MULF = z3.Function('vf.mul', z3.IntSort(), z3.IntSort(), z3.IntSort())
@@ -102,8 +107,9 @@ def to_smt2(ob, light=False):
 
 
 def _solve(job):
-    name, text, timeout_ms, seed = job
-    refute_only = timeout_ms == Z3_TIMEOUT_MS['refute']
+    name, text, tier, seed = job
+    timeout_ms, rlimit, attempts = Z3_TIMEOUT_MS.get(tier, 150000), Z3_RLIMIT.get(tier, 50000000), Z3_ATTEMPTS.get(tier, 4)
+    refute_only = tier == 'refute'
     light = None
     if isinstance(text, tuple):
         light, text = text
@@ -114,6 +120,7 @@ def _solve(job):
         try:
             s = z3.Solver()
             s.set('timeout', max(2000, timeout_ms // 4))
+            s.set('rlimit', max(2000000, rlimit // 5))
             s.set('random_seed', seed)
             s.from_string(light)
             if s.check() == z3.unsat:
@@ -122,9 +129,10 @@ def _solve(job):
             pass
     try:
         # slow queries are the unstable ones: a few differently seeded attempts before giving up
-        for attempt in range(1 if refute_only else 3):
+        for attempt in range(attempts):
             s = z3.Solver()
             s.set('timeout', timeout_ms)
+            s.set('rlimit', rlimit)
             s.set('random_seed', seed + 7919 * attempt)
             if attempt:
                 s.set('smt.arith.random_initial_value', True)
@@ -145,8 +153,9 @@ def _solve(job):
                 f.write('(set-logic ALL)\n' + text)
                 path = f.name
             try:
-                p = subprocess.run(['/usr/bin/cvc5', '--tlimit=%d' % timeout_ms, path], capture_output=True, text=True,
-                                   timeout=timeout_ms / 1000 + 10)
+                cv_ms = {'quick': 30000, 'thorough': 120000}.get(tier, 30000)
+                p = subprocess.run(['/usr/bin/cvc5', '--tlimit=%d' % cv_ms, path], capture_output=True, text=True,
+                                   timeout=cv_ms / 1000 + 10)
                 out = p.stdout.strip().split('\n')[0] if p.stdout.strip() else ''
                 if out == 'unsat':
                     res, backend, detail = 'unsat', 'cvc5', None
@@ -176,7 +185,7 @@ def discharge(obls, tier='quick', workers=None, seed=0):
         except Exception as e:
             ob.result, ob.backend, ob.detail = 'error', 'z3', repr(e)
             continue
-        jobs.append((key, text, Z3_TIMEOUT_MS.get(tier, 20000), seed))
+        jobs.append((key, text, tier, seed))
     if not jobs:
         return
     workers = workers or min(16, os.cpu_count() or 4)
